@@ -60,16 +60,21 @@ type taskModel struct {
 }
 
 type opModel struct {
-	name      string
-	task      *taskModel
-	waiters   int
-	removalAt time.Time // zero = no removal pending
-	removed   bool
+	inputsChecked bool
+	name          string
+	task          *taskModel
+	waiters       int
+	removalAt     time.Time // zero = no removal pending
+	removed       bool
 }
 
 type labels map[string]int
 
 type model struct {
+	// Model-owned "last operation started" time of every invocation (C04
+	// least-recently-served tie-break): queue name + invocation path.
+	lastServed        map[string]int64
+	lastSeenServed    map[string]int64
 	prevWorkerAttempt map[string]string
 	// Model-owned operator state (C05): the drains of every size class
 	// queue (queue name -> pattern JSON -> pattern) and the workers that a
@@ -126,7 +131,7 @@ func newModel(w *world) *model {
 		w: w, byOp: map[string]*taskModel{}, ops: map[string]*opModel{}, labels: labels{}, startAt: w.clk.Now(),
 		seenMsgs: map[int]int{}, streamOp: map[int]string{}, streamDone: map[int]bool{}, streamEnded: map[int]bool{},
 		execExpect: map[int]*execExpectation{}, diagnostics: map[string]bool{},
-		drains: map[string]map[string]map[string]string{}, terminating: map[string]bool{},
+		drains: map[string]map[string]map[string]string{}, terminating: map[string]bool{}, lastServed: map[string]int64{}, lastSeenServed: map[string]int64{},
 	}
 }
 
@@ -561,6 +566,11 @@ func (m *model) observe() {
 				t.opNames[o.Name] = true
 				m.byOp[o.Name] = t
 				m.ops[o.Name] = &opModel{name: o.Name, task: t}
+				if vt.Stage == remoteexecution.ExecutionStage_EXECUTING {
+					// A request deduplicated against a task that is
+					// executing: its invocations start being served.
+					m.markServed(vt.QueueName, o.InvocationIDs, now)
+				}
 			}
 		}
 		// Stage bookkeeping.
@@ -625,6 +635,9 @@ func (m *model) observe() {
 			t.mismatch = 0
 			t.expectInternal = 0
 			t.reissues = 0
+			for _, o := range vt.Operations {
+				m.markServed(vt.QueueName, o.InvocationIDs, now)
+			}
 		}
 		t.prevStage = vt.Stage
 		t.prevQueue = vt.QueueName
@@ -659,6 +672,7 @@ func (m *model) observe() {
 		}
 	}
 
+	m.checkLastServed(snap, now)
 	m.checkOperatorState(snap)
 	m.checkLearnerOutcomes()
 	m.checkBackgroundBound(snap)
@@ -773,6 +787,7 @@ func (m *model) observeStreams(snap *scheduler.VerifSnapshot, now time.Time) {
 			if i == 0 {
 				m.streamOp[s.id] = msg.Name
 				m.onStreamAttached(s, msg.Name, now)
+				m.checkOperationInputs(s, msg.Name, snap)
 			} else if msg.Name != m.streamOp[s.id] {
 				w.failf("C02: stream %d received messages for operations %s and %s", s.id, m.streamOp[s.id], msg.Name)
 			}
@@ -1458,4 +1473,109 @@ func (m *model) checkQueueSet(now time.Time) {
 		}
 	}
 	m.label("queue_set_compared")
+}
+
+// checkOperationInputs: the fair-order reference model (C04) takes an
+// operation's priority, invocation path, expected duration and queueing
+// time from the scheduler's own records. This check ties those records to
+// what the client and the size class selector actually supplied: the first
+// Execute stream attached to an operation is the one that created it.
+func (m *model) checkOperationInputs(s *streamSim, name string, snap *scheduler.VerifSnapshot) {
+	op := m.ops[name]
+	if s.kind != "execute" || op == nil || op.inputsChecked {
+		return
+	}
+	op.inputsChecked = true
+	e := s.exec
+	w := m.w
+	for _, vt := range snap.Tasks {
+		for _, o := range vt.Operations {
+			if o.Name != name {
+				continue
+			}
+			if o.Priority != e.Priority {
+				w.failf("C04: operation %s was created by Execute %s with priority %d, but the scheduler recorded priority %d", shortName(name), e.ActionID, e.Priority, o.Priority)
+			}
+			comps := strings.Split(e.InvPath, "/")
+			ids := o.InvocationIDs
+			if len(w.cfg.Routers) > 0 && len(ids) > 0 {
+				// Demultiplexed worlds: the router's marker comes first
+				// (checked by the routing oracle).
+				ids = ids[1:]
+			}
+			if len(ids) != w.cfg.InvDepth {
+				w.failf("C04: operation %s of Execute %s is filed under %d invocation keys, %d key extractors are configured", shortName(name), e.ActionID, len(ids), w.cfg.InvDepth)
+			}
+			for l, id := range ids {
+				if l < len(comps) && !strings.Contains(strings.ReplaceAll(id, " ", ""), `"value":"`+comps[l]+`"`) {
+					w.failf("C04: operation %s of Execute %s (invocation path %s) is filed under invocation key %s at level %d", shortName(name), e.ActionID, e.InvPath, id, l)
+				}
+			}
+			if actionIDOf(vt.DesiredState) == e.ActionID && vt.DesiredState != nil {
+				// The task was created for this very request.
+				if vt.Stage == remoteexecution.ExecutionStage_QUEUED && vt.ExpectedDuration != e.Plan.Expected {
+					w.failf("C04: the selector answered Execute %s with an expected duration of %s, but the queued task carries %s", e.ActionID, e.Plan.Expected, vt.ExpectedDuration)
+				}
+				if qt := vt.DesiredState.QueuedTimestamp.AsTime(); !qt.Equal(w.clk.Now()) && e.Step == w.stepNo {
+					w.failf("C04: task of Execute %s was queued at %s, but carries queued timestamp %s", e.ActionID, w.clk.Now().Sub(m.startAt), qt.Sub(m.startAt))
+				}
+				m.label("operation_inputs_checked_fresh_task")
+			} else {
+				m.label("operation_inputs_checked_attached")
+			}
+		}
+	}
+}
+
+func servedKey(queue string, ids []string) string {
+	return queue + "\x00" + strings.Join(ids, "\x01")
+}
+
+// markServed records that an operation of the invocation with these keys
+// started executing now: the invocation and all its ancestors up to the
+// root of the size class queue count as served at this instant.
+func (m *model) markServed(queue string, ids []string, now time.Time) {
+	for l := 0; l <= len(ids); l++ {
+		m.lastServed[servedKey(queue, ids[:l])] = now.UnixNano()
+	}
+}
+
+// checkLastServed: the least-recently-served tie-break of C04 rests on the
+// time at which each invocation last had an operation started. The model
+// derives it from the history (creation of the invocation, every start of
+// one of its operations incl. requests attached to an executing task and
+// queued tasks completed through a temporary worker) and the scheduler's
+// record must agree, so that the reference model of the fair order does
+// not inherit a wrong time stamp from the code under test.
+func (m *model) checkLastServed(snap *scheduler.VerifSnapshot, now time.Time) {
+	// m.lastServed holds, for this step only, the invocations of which an
+	// operation started executing now (markServed); m.lastSeenServed the
+	// value the scheduler reported in the previous snapshot.
+	present := map[string]bool{}
+	for _, inv := range snap.Invocations {
+		k := servedKey(inv.QueueName, inv.IDs)
+		present[k] = true
+		if len(inv.IDs) == 0 {
+			// The root of a size class queue has no siblings to tie with.
+			continue
+		}
+		prev, known := m.lastSeenServed[k]
+		switch {
+		case m.lastServed[k] != 0 && inv.LastOperationStarted != now.UnixNano():
+			m.w.failf("C04: an operation of invocation %v of %s started executing at %s, but the scheduler records %s as the time its last operation started (least-recently-served tie-break)", inv.IDs, inv.QueueName, now.Sub(m.startAt), time.Unix(0, inv.LastOperationStarted).Sub(m.startAt))
+		case !known && inv.LastOperationStarted != now.UnixNano():
+			m.w.failf("C04: invocation %v of %s was created at %s, but the scheduler records %s as the time its last operation started", inv.IDs, inv.QueueName, now.Sub(m.startAt), time.Unix(0, inv.LastOperationStarted).Sub(m.startAt))
+		case known && inv.LastOperationStarted < prev:
+			m.w.failf("C04: invocation %v of %s: the recorded time of its last started operation went back from %s to %s", inv.IDs, inv.QueueName, time.Unix(0, prev).Sub(m.startAt), time.Unix(0, inv.LastOperationStarted).Sub(m.startAt))
+		case inv.LastOperationStarted > now.UnixNano():
+			m.w.failf("C04: invocation %v of %s: the recorded time of its last started operation lies in the future", inv.IDs, inv.QueueName)
+		}
+		m.lastSeenServed[k] = inv.LastOperationStarted
+	}
+	for k := range m.lastSeenServed {
+		if !present[k] {
+			delete(m.lastSeenServed, k)
+		}
+	}
+	m.lastServed = map[string]int64{}
 }
